@@ -68,6 +68,16 @@ impl Kind for Quot {
     }
 }
 
+pub struct HSet;
+impl Kind for HSet {
+    type F = std::collections::HashSet<u64>;
+    const NAME: &'static str = "hset";
+    const MULTISET: bool = false;
+    fn build(_ctx: &mut Ctx, _slot: usize, _op: &[String]) -> (Self::F, Vec<String>) {
+        (std::collections::HashSet::new(), vec!["unit".into()])
+    }
+}
+
 struct Inst<K: Kind> {
     f: K::F,
     ctor: Vec<String>,
